@@ -346,8 +346,9 @@ func (r *transport) handleCacheHit(
 
 	if swr, swrValid := ccResp.StaleWhileRevalidate(); freshness.IsStale && swrValid {
 		age := internal.SatAdd(freshness.Age.Value, r.clock.Since(freshness.Age.Timestamp))
-		staleFor := age - freshness.UsefulLife
-		if staleFor >= 0 && staleFor < swr {
+		// Saturating, like the max-stale and stale-if-error windows: a saturated
+		// age ("at least this old") is inside no window that saturates too.
+		if age >= freshness.UsefulLife && age < internal.SatAdd(freshness.UsefulLife, swr) {
 			return r.handleStaleWhileRevalidate(req, stored, urlKey, freshness, ccReq, ccResp)
 		}
 	}
